@@ -47,7 +47,7 @@ pub fn spec() -> PropSpec<Case> {
           1..=tier.pick(4, 8),
         ),
         2..=4u8,
-        proptest::option::weighted(0.4, crate::props::c07::jsr_part_strategy()),
+        proptest::option::weighted(0.55, crate::props::c07::jsr_part_strategy()),
       )
         .prop_map(|(build, schedules, reruns, jsr)| Case {
           build,
@@ -58,7 +58,7 @@ pub fn spec() -> PropSpec<Case> {
         .boxed()
     },
     check,
-    cases: |tier| tier.pick(12_000, 300_000),
+    cases: |tier| tier.pick(40_000, 400_000),
     rule: "generated worlds (fan-out, diamonds, several dynamic imports, redirects, remote modules with a recording lockfile) each built once with every load future ready immediately, then under 1-4 (thorough 8) drawn completion schedules (choice among the currently outstanding loads at every step, FIFO or LIFO tail) and re-run 2-4 times in the same process (fresh hasher state); exhaustive layer: all completion orders of small worlds by stateless DFS; non-trivial = some decision point had >= 2 outstanding loads, or the world has >= 2 dynamic branches; distinct = distinct case JSON",
     assumptions: &[
       "the loader's answers are a function of the request (specifier, options) only; the schedule only decides when each answer is delivered",
